@@ -225,8 +225,8 @@ var registry = []propertySpec{
 		ID:    "C19",
 		Files: map[string][]string{"html": {"zz_verif_html_lib.go", "zz_verif_c19.go"}},
 		Harnesses: []harnessSpec{
-			{Name: "VerifC19_Names", Pkg: "html", Quick: tierSpec{Cases: 9}, Thorough: tierSpec{Cases: 9}, Sched: -1,
-				Bounds: "a 2-person document plus one hostile element: 2 symbolic bytes (0x21-0x7e) in a source pointer, an individual pointer, a surname or a place name; two people whose names collapse to one key; places named like fixed pages; all page groups, show mode"},
+			{Name: "VerifC19_Names", Pkg: "html", Quick: tierSpec{Cases: 10}, Thorough: tierSpec{Cases: 10}, Sched: -1,
+				Bounds: "a 2-person document plus one hostile element: 2 symbolic bytes (0x21-0x7e) in a source pointer, an individual pointer, a surname or a place name; two people whose names collapse to one key; places named like fixed pages; a person whose name collapses to the key of a place that is also written in three spellings; all page groups, show mode"},
 			{Name: "VerifC19_Determinism", Pkg: "html", Quick: tierSpec{Cases: 6}, Thorough: tierSpec{Cases: 6}, Sched: -1, MapOrder: true, Invariant: []string{"site"},
 				Bounds: "a 4-person / 1-family / 1-source document in 3 visibility modes x jobs 1,2, preceded or not by publishing another document in the same execution, under four map iteration policies applied to every map range (insertion order, reversed, rotated, adjacent pairs swapped) with the deterministic goroutine scheduler"},
 			{Name: "VerifC19_Races", Pkg: "html", Quick: tierSpec{Cases: 6}, Thorough: tierSpec{Cases: 6}, Sched: -2, Race: true,
